@@ -262,7 +262,11 @@ func (c *fctx) assignSpecial(e *emitter, ind int, st *ast.AssignStmt) bool {
 	obj := c.fi.Pkg.callee(call)
 	// _, err := rand.Read(buf): a draw from the explicit tape
 	if f, ok := obj.(*types.Func); ok && f.Pkg() != nil && f.Pkg().Path() == "crypto/rand" && f.Name() == "Read" && len(st.Lhs) == 2 && c.tapeVar != nil {
-		id, isId := ast.Unparen(call.Args[0]).(*ast.Ident)
+		arg := ast.Unparen(call.Args[0])
+		if se, ok := arg.(*ast.SliceExpr); ok && se.Low == nil && se.High == nil && !se.Slice3 {
+			arg = ast.Unparen(se.X) // buf[:] of a slice variable is the variable
+		}
+		id, isId := arg.(*ast.Ident)
 		if !isId {
 			c.fail(st, "rand.Read into something that is not a variable")
 		}
@@ -327,6 +331,18 @@ func (c *fctx) assignSpecial(e *emitter, ind int, st *ast.AssignStmt) bool {
 		if !ok {
 			// a plain buffer variable, from a source that is a byte string (ends cleanly)
 			id, isId := ast.Unparen(call.Args[1]).(*ast.Ident)
+			if lt, _ := leanTypeOf(c.typeOf(call.Args[0])); isId && lt == "κ" {
+				// an abstract reader (the output of hkdf.New)
+				bv := c.info().Uses[id].(*types.Var)
+				c.useAbstractName("reader_ReadFull", "(reader_ReadFull : κ → Int → Go.M ((List UInt8) × (Option Go.Err) × κ))")
+				t := c.tmp()
+				e.add(ind, fmt.Sprintf("let %s ← reader_ReadFull %s (Go.len %s)", t, c.expr(call.Args[0]), c.nameOf(bv)))
+				c.assignTo(e, ind, call.Args[0], t+".2.2", false)
+				e.add(ind, fmt.Sprintf("%s := Go.writeAt %s (0 : Int) %s.1", c.nameOf(bv), c.nameOf(bv), t))
+				c.assignTo(e, ind, st.Lhs[0], "(Go.len "+t+".1)", define)
+				c.assignTo(e, ind, st.Lhs[1], t+".2.1", define)
+				return true
+			}
 			if lt, _ := leanTypeOf(c.typeOf(call.Args[0])); !isId || lt != "(List UInt8)" {
 				c.fail(st, "io.ReadFull into something that is neither a view nor a variable")
 			}
